@@ -227,8 +227,10 @@ def evaluate__mod_operator(self: XPathToken, context: ta.ContextType = None) \
         return op1 % op2  # type: ignore[operator]
     except TypeError as err:
         raise self.error('FORG0006', err) from None
-    except (ZeroDivisionError, decimal.InvalidOperation):
-        raise self.error('FOAR0001') from None
+    except (ZeroDivisionError, decimal.InvalidOperation) as err:
+        if op2 == 0:
+            raise self.error('FOAR0001') from None
+        raise self.error('FOAR0002', err) from None
 
 
 # Resolve the intrinsic ambiguity of some infix operators
